@@ -186,6 +186,10 @@ Section Semantics.
     | None => None
     end.
 
+  (* a link that continues the optional chain of its target (OptionalChainContinue):
+     every flag other than 0 (none) and 1 (start) *)
+  Definition is_cont (oc : Z) : bool := negb (oc =? 0) && negb (oc =? 1).
+
   (* end of an optional chain *)
   Definition catch_short (r : option (trace * outcome)) : option (trace * outcome) :=
     match r with
@@ -279,11 +283,11 @@ Section Semantics.
           end
         else Some (tr, Val (w_lenv W ref))
     | EDot t name oc _ _ =>
-        catch_short (dot_step (if oc =? 2 then eval_raw tr t else eval tr t) name oc)
+        catch_short (dot_step (if is_cont oc then eval_raw tr t else eval tr t) name oc)
     | EIndex t i oc =>
-        catch_short (index_step (if oc =? 2 then eval_raw tr t else eval tr t) (fun tr1 => eval tr1 i) oc)
+        catch_short (index_step (if is_cont oc then eval_raw tr t else eval tr t) (fun tr1 => eval tr1 i) oc)
     | ECall t args oc _ =>
-        catch_short (call_step (if oc =? 2 then eval_raw tr t else eval tr t) (fun tr1 => eval_items tr1 args []) oc)
+        catch_short (call_step (if is_cont oc then eval_raw tr t else eval tr t) (fun tr1 => eval_items tr1 args []) oc)
     | ENew t args _ =>
         bind (eval tr t) (fun tr1 fv => lbind (eval_items tr1 args []) (fun tr2 vs => eff tr2 (w_new W fv vs)))
     | EArray items => lbind (eval_items tr items []) (fun tr1 _ => Some (tr1, Val VArr))
@@ -375,15 +379,15 @@ Section Semantics.
             end
         end in
     match e with
-    | EDot t name oc _ _ => dot_step (if oc =? 2 then eval_raw tr t else eval tr t) name oc
-    | EIndex t i oc => index_step (if oc =? 2 then eval_raw tr t else eval tr t) (fun tr1 => eval tr1 i) oc
-    | ECall t args oc _ => call_step (if oc =? 2 then eval_raw tr t else eval tr t) (fun tr1 => eval_items tr1 args []) oc
+    | EDot t name oc _ _ => dot_step (if is_cont oc then eval_raw tr t else eval tr t) name oc
+    | EIndex t i oc => index_step (if is_cont oc then eval_raw tr t else eval tr t) (fun tr1 => eval tr1 i) oc
+    | ECall t args oc _ => call_step (if is_cont oc then eval_raw tr t else eval tr t) (fun tr1 => eval_items tr1 args []) oc
     | _ => None
     end.
 
   (* the target of a chain-capable node *)
   Definition eval_target (oc : Z) (tr : trace) (t : expr) : option (trace * outcome) :=
-    if oc =? 2 then eval_raw tr t else eval tr t.
+    if is_cont oc then eval_raw tr t else eval tr t.
 
   (* the local list evaluators of [eval] are the named ones *)
   Lemma items_local_eq : forall args tr acc,
